@@ -17,6 +17,7 @@ import time
 
 import common
 import c10_gen as g
+import c10_attr as A
 
 PREAMBLE = """From Coq Require Import List Arith Bool. Import ListNotations.
 From PV Require Import Mro.Model.
@@ -389,8 +390,50 @@ def load_corpus():
   cdir = os.path.join(common.CORPUS, "C10")
   for f in sorted(os.listdir(cdir)) if os.path.isdir(cdir) else []:
     d = json.load(open(os.path.join(cdir, f)))
+    if d.get("mode") in ("attr", "generic"):      # corpus of the extension: load_ext_corpus
+      continue
     out.append((f, d["H"], d.get("attrs"), d.get("history")))
   return out
+
+
+def load_ext_corpus():
+  """Corpus entries of the extension: {"mode": "attr", "H", "spec", "probes"} / {"mode": "generic", "G", "attrs"}."""
+  out = []
+  cdir = os.path.join(common.CORPUS, "C10")
+  for f in sorted(os.listdir(cdir)) if os.path.isdir(cdir) else []:
+    d = json.load(open(os.path.join(cdir, f)))
+    if d.get("mode") in ("attr", "generic"):
+      out.append((f, d))
+  return out
+
+
+def shrink_attr_job(job, var, fp, budget_s=15.0):
+  """Keeps the failing probe only, then drops classes the probed class does not inherit from (time-bounded)."""
+  deadline = time.time() + budget_s
+  def fails(j):
+    return any(f == fp for f, _, _ in A.judge_attr(j, run_inproc(j)))
+  best = job
+  j1 = A.rebuild_attr_job(dict(job, probes={var: job["probes"][var]}))
+  if var in j1["probes"] and fails(j1):
+    best = j1
+  H, spec = best["H"], best["spec"]
+  k = len(H) - 1
+  while k >= 2 and time.time() < deadline:
+    users = any(k in b for b in H[k + 1:]) or any(k in [i, jj] for _, i, jj in best["probes"].values())
+    if not users:
+      ren = lambda x: x - 1 if x > k else x
+      H2 = [[ren(x) for x in b] for i, b in enumerate(H) if i != k]
+      spec2 = [sp for i, sp in enumerate(spec) if i != k]
+      # coop2 / super2 bodies name their own class by index: regenerated from spec, so renaming is implicit
+      probes2 = {v: [kd, ren(i), None if jj is None else ren(jj)] for v, (kd, i, jj) in best["probes"].items()}
+      try:
+        j2 = A.rebuild_attr_job(dict(best, H=H2, spec=spec2, probes=probes2))
+        if j2["probes"] and fails(j2):
+          best, H, spec = j2, H2, spec2
+      except Exception:
+        pass
+    k -= 1
+  return best
 
 
 def run(res):
@@ -405,15 +448,27 @@ def run(res):
               "assignments (fresh marker type each) and deletions on classes earlier than / equal to / later than the current "
               "definition in the reader's MRO, then re-reads; each read is compared with CPython at that point (violation only if "
               "the run-time type is excluded by the inferred type). A case is "
-              "non-trivial if some class has >=2 bases; distinct by (mode, table, attrs).") % (5 if thorough else 4)
+              "non-trivial if some class has >=2 bases; distinct by (mode, table, attrs). EXTENSION: (attr) random legal hierarchies of "
+              "4-8 classes under one root with diamonds; per class a random body: class attributes a/b, method m (plain / "
+              "super().m() / super(C, self).m()), ga (super().a, both forms), classmethod cm (plain / super().cm()), __init__ "
+              "(stores to x/a before / after / without super().__init__()), __getattr__/__getattribute__; reads C().m(), C().ga(), "
+              "C.cm(), C().x, C().a, C().zz, super(Cj, C()).a executed in CPython (failing reads dropped) and compared with the "
+              "inferred type (Any without any error = call-depth widening, skipped and counted); (generic) random tables over "
+              "object/Generic/user classes with bases written plain, [T] or [int], Generic[T] first/last/between, rarely the same "
+              "alias twice; created with the real typing module, truncated at the first MRO TypeError; tables that typing or "
+              "pytype's TypeVar-consistency check refuse for non-MRO reasons are skipped and counted.") % (5 if thorough else 4)
   res.assumptions = [
       "CPython's pmerge/check_duplicates/mro_implementation transcribed from Objects/typeobject.c (3.12) by hand; validated "
       "only differentially against the running interpreter (type(name, bases, {}).__mro__ / TypeError)",
-      "classes are modelled as natural numbers (object identity / ClassType name equality); metaclasses, Generic[...] bases, "
-      "ParameterizedClass renaming in compute_mro, typing special forms are outside the model",
+      "classes are modelled as natural numbers (object identity / ClassType name equality); metaclasses, Protocol, typing special "
+      "forms other than Generic[...] are outside the model; every written subscription A[...] is modelled as a fresh object",
+      "super(): metaclass-free programs (a class object's cls is builtins.type); super_cls compared by full_name = class identity; "
+      "CPython's supercheck/_super_lookup_descr transcribed by hand from typeobject.c 3.12, validated differentially",
+      "instance reads: programs without data descriptors/properties/__slots__; __init__ bodies are stores and one optional "
+      "super().__init__() call; hooks return a constant; typing._GenericAlias.__mro_entries__ transcribed by hand (3.12)",
       "a program is a sequence of class statements; comparison stops at the first refused class (CPython aborts there)",
-      "attribute lookup is modelled as 'first class in the MRO whose body defines the name'; descriptors, __getattr__, "
-      "instance dictionaries and metaclass attributes are outside the model (exercised end to end only for plain attributes/methods)",
+      "class attribute lookup is modelled as 'first class in the MRO whose body defines the name'; descriptors and metaclass "
+      "attributes are outside the model",
       "model parameter dupcheck (duplicate-base check in compute_mro present or not) is determined per run by the observed "
       "compute_mro calls; generators, differ and program printer in harness/props/c10*.py are trusted",
   ]
@@ -465,11 +520,34 @@ def run(res):
     jobs.append(make_job(len(jobs), mode, H, attrs, style, hist))
     if k < len(corpus):   # corpus tables go through both modes
       jobs.append(make_job(len(jobs), "stub" if mode == "source" else "source", H, attrs, 1, corpus_hist.get(k)))
+  # extension: super()/__init__ chains/hooks programs and Generic tables
+  r4 = common.rng(res.seed, "c10", "attr")
+  ext_corpus = load_ext_corpus()
+  attr_jobs, gen_jobs = [], []
+  for f, d in ext_corpus:
+    if d["mode"] == "attr":
+      attr_jobs.append(A.rebuild_attr_job({"id": 100000 + len(attr_jobs), "mode": "attr", "H": d["H"], "spec": d["spec"],
+                                           "probes": d["probes"]}))
+    else:
+      gen_jobs.append(A.build_generic_job(200000 + len(gen_jobs), d["G"], d["attrs"]))
+  n_attr = 900 if thorough else 56
+  n_gen = 700 if thorough else 48
+  while len(attr_jobs) < n_attr:
+    Hh = A.gen_hier(r4, r4.choice([4, 5, 5, 6, 6, 7, 8]))
+    attr_jobs.append(A.make_attr_job(100000 + len(attr_jobs), r4, Hh, max_probes=14 if thorough else 11))
+  n_gen_dropped = 0
+  while len(gen_jobs) < n_gen:
+    gj = A.make_generic_job(200000 + len(gen_jobs), r4, A.gen_gtable(r4, r4.randint(2, 6)))
+    if gj is None:
+      n_gen_dropped += 1
+      continue
+    gen_jobs.append(gj)
   res.extra["t_generate_s"] = round(time.time() - t0, 1)
 
   common.build_cfg()
   n_workers = int(os.environ.get("VERIF_C10_WORKERS", 8 if thorough else 4))
-  wait_e2e = run_workers(jobs, n_workers)          # runs while Coq builds and the pure legs are compared
+  # the slower extension programs first in every worker's share, so that the tail is made of short programs
+  wait_e2e = run_workers(attr_jobs + gen_jobs + jobs, n_workers)          # runs while Coq builds and the pure legs are compared
 
   # ---- Coq theorems -------------------------------------------------------------------------
   common.coq_obligations(res, "C10")
@@ -583,8 +661,9 @@ def run(res):
   # ---- e2e ------------------------------------------------------------------------------------
   t2 = time.time()
   results, werrs = wait_e2e()
-  res.obligation("e2e-workers", not werrs and len(results) == len(jobs),
-                 "%d of %d programs returned; %s" % (len(results), len(jobs), werrs[:1]))
+  n_all_jobs = len(jobs) + len(attr_jobs) + len(gen_jobs)
+  res.obligation("e2e-workers", not werrs and len(results) == n_all_jobs,
+                 "%d of %d programs returned; %s" % (len(results), n_all_jobs, werrs[:1]))
   ecases = []
   e2e_hist = {"source": 0, "stub": 0, "cpython-refuses-last-class": 0, "with-repeated-base": 0, "not-explorable": 0}
   fp_seen = {}
@@ -706,6 +785,135 @@ def run(res):
   res.extra["history_ops"] = n_hist_ops
   res.extra["history_reads_widened_by_pytype"] = n_widened
   res.extra["lookups_compared"] = len(lookups)
+  # ---- extension: super() / instance dictionaries / hooks -------------------------------------
+  t3 = time.time()
+  mo = A.ModelOracle(run_model, exe)
+  side_py = 2 if flag != "false" else 1
+  live_attr = [j for j in attr_jobs if j["id"] in results]
+  qs = []
+  for job in live_attr:
+    qs += A.queries_for_job(job)
+  answers = mo.ask(qs)
+  bad_ac, bad_ap = [], []
+  attr_fp = {}
+  kind_hist = {}
+  n_attr_probes = 0
+  n_attr_widened = 0
+  n_cm_diverge = 0
+  for job in live_attr:
+    out = results[job["id"]]
+    issues = A.judge_attr(job, out)
+    if issues and issues[0][0] == "not-explorable":
+      e2e_hist["not-explorable"] += 1
+      continue
+    multi = sum(1 for b in job["H"] if len(b) >= 2)
+    res.count(("attr", tuple(map(tuple, job["H"])), json.dumps(job["spec"], sort_keys=True)) if multi else None)
+    exp_c = A.expected_for_job(job, answers, 0)
+    exp_p = A.expected_for_job(job, answers, side_py)
+    stub_types = dict(re.findall(r"^(\w+): (.+)$", out.get("pyi") or "", re.M))
+    for var, info in job["probes"].items():
+      n_attr_probes += 1
+      kind_hist[info[0]] = kind_hist.get(info[0], 0) + 1
+      if exp_c[var] != job["cpy"][var]:
+        bad_ac.append((job["H"], job["spec"], var, info, "cpython=%s model=%s" % (job["cpy"][var], exp_c[var])))
+      if not out.get("exc") and stub_types.get(var) == "Any" and not out["errors"]:
+        n_attr_widened += 1       # nested super() calls beyond the analysis' call depth: Any, nothing to compare
+      elif not out.get("exc") and exp_p[var] != stub_types.get(var):
+        bad_ap.append((job["H"], job["spec"], var, info, "pytype=%s model=%s" % (stub_types.get(var), exp_p[var])))
+    for fp, what, var in issues:
+      if fp == "super-in-classmethod" and var is not None and exp_p[var] == stub_types.get(var) and exp_p[var] != exp_c[var]:
+        # exactly the answer the faithful model (starting_cls = calling class) predicts: theorem super_classmethod_refuted
+        fp = "super-in-classmethod-uses-calling-class-mro"
+        n_cm_diverge += 1
+      attr_fp.setdefault(fp, []).append((job, what, var))
+    if len(res.samples) < 6 and multi >= 2 and not issues:
+      res.sample({"mode": "attr", "H": job["H"], "probes": job["probes"], "cpython": job["cpy"]})
+  res.obligation("correspondence:super/instance-model(CPython side)-vs-cpython", not bad_ac,
+                 "%d of %d reads disagree; first: %s" % (len(bad_ac), n_attr_probes, bad_ac[:1]))
+  res.obligation("correspondence:super/instance-model(pytype side)-vs-pytype-inferred-type", not bad_ap,
+                 "%d of %d reads disagree; first: %s" % (len(bad_ap), n_attr_probes, bad_ap[:1]))
+  res.obligation("refutation-reproduced:super-in-classmethod", n_cm_diverge > 0 or bool(bad_ap),
+                 "theorem super_classmethod_refuted: no program in which real pytype resolves super() in a classmethod along the "
+                 "calling class's MRO where CPython uses the receiver's")
+  for fp, lst in sorted(attr_fp.items()):
+    lst.sort(key=lambda t: (len(t[0]["H"]), len(t[0]["probes"])))
+    job, what, var = lst[0]
+    if fp == "pytype-crash":
+      res.obligation("e2e:pytype-raised(attr)", False, "%s on H=%s (%d programs)" % (what, job["H"], len(lst)))
+      continue
+    if fp not in res.known and len(res.violations) < 3 and var is not None:
+      try:
+        job = shrink_attr_job(job, var, fp)
+        what = next((w for f, w, _ in A.judge_attr(job, run_inproc(job)) if f == fp), what)
+      except Exception as e:  # shrinking is best effort
+        what += " (shrink failed: %s)" % e
+    if fp in res.known or len(res.violations) < 3:
+      res.violation(fp, "%s [%d programs; smallest: H=%s]" % (what, len(lst), job["H"]),
+                    {"kind": "attr", "H": job["H"], "spec": job["spec"], "probes": job["probes"], "program": job["text"]})
+  res.extra["attr_programs"] = len(live_attr)
+  res.extra["attr_reads_compared"] = n_attr_probes
+  res.extra["attr_read_kinds"] = kind_hist
+  res.extra["attr_reads_widened_to_Any_by_call_depth"] = n_attr_widened
+  res.extra["attr_model_queries"] = len(answers)
+  res.extra["attr_fingerprints"] = {k: len(v) for k, v in attr_fp.items()}
+  res.extra["attr_classmethod_divergences"] = n_cm_diverge
+
+  # ---- extension: Generic[...] / parameterised bases --------------------------------------------
+  live_gen = [j for j in gen_jobs if j["id"] in results]
+  ganswers = mo.ask([A.g_line(j["G"]) for j in live_gen])
+  bad_gc, bad_gp = [], []
+  gen_fp = {}
+  g_hist = {"all-created": 0, "cpython-refuses-last-class": 0, "same-reading": 0, "readings-differ-but-agree": 0,
+            "readings-disagree": 0, "typevar-conflict-skipped": 0, "unobserved": 0}
+  for job in live_gen:
+    out = results[job["id"]]
+    if any(e[0] == "invalid-annotation" and "Conflicting value for TypeVar" in e[2] for e in out.get("errors", [])):
+      g_hist["typevar-conflict-skipped"] += 1      # pytype's own TypeVar consistency check turned the class into Any
+      continue
+    issues = A.judge_generic(job, out)
+    if issues and issues[0][0] == "not-explorable":
+      e2e_hist["not-explorable"] += 1
+      continue
+    res.count(("generic", json.dumps(job["G"]), json.dumps(job["attrs"])) if any(len(b) >= 2 for b in job["G"]) else None)
+    g_hist["all-created" if job["fail"] is None else "cpython-refuses-last-class"] += 1
+    m = [x.strip() for x in ganswers[A.g_line(job["G"])].split("|")]
+    cpy_enc = g.enc_table(job["cpy_mros"], job["fail"])
+    if parse_tab(m[0]) != cpy_enc:
+      bad_gc.append((job["G"], "cpython=%s model=%s" % (cpy_enc, parse_tab(m[0]))))
+    g_hist["same-reading" if m[3] == "1" else ("readings-differ-but-agree" if m[2] == m[0] else "readings-disagree")] += 1
+    obs = A.observed_gtable(job, out) if not out.get("exc") else None
+    if obs is None:
+      g_hist["unobserved"] += 1
+    else:
+      raw = [[(int(e.split(".")[0]), e.split(".")[1] != "0") for e in row.split()] for row in m[4].split(";")] if m[4].strip() else []
+      want = (parse_tab(m[1])[0], raw[2:])
+      if (obs[0], obs[1]) != want:
+        bad_gp.append((job["G"], "observed=%s model=%s" % (obs, want)))
+    for fp, what in issues:
+      gen_fp.setdefault(fp, []).append((job, what))
+  res.obligation("correspondence:gmros_c-vs-cpython(typing.__mro_entries__+__mro__)", not bad_gc,
+                 "%d of %d tables disagree; first: %s" % (len(bad_gc), len(live_gen), bad_gc[:1]))
+  res.obligation("correspondence:gmros_py-vs-observed-compute_mro(Generic/parameterised bases)",
+                 not bad_gp and g_hist["unobserved"] == 0,
+                 "%d of %d tables disagree, %d unobserved; first: %s" % (len(bad_gp), len(live_gen), g_hist["unobserved"], bad_gp[:1]))
+  for fp, lst in sorted(gen_fp.items()):
+    lst.sort(key=lambda t: (len(t[0]["G"]), sum(map(len, t[0]["G"]))))
+    job, what = lst[0]
+    if fp == "pytype-crash":
+      res.obligation("e2e:pytype-raised(generic)", False, "%s on G=%s (%d programs)" % (what, job["G"], len(lst)))
+      continue
+    if fp in res.known or len(res.violations) < 3:
+      res.violation(fp, "%s [%d programs; smallest: G=%s]" % (what, len(lst), job["G"]),
+                    {"kind": "generic", "G": job["G"], "attrs": job["attrs"], "program": job["text"]})
+  for fp, thm in (("generic-base-dropped-where-cpython-keeps-it", "generic_dropped_refuted"),
+                  ("duplicate-parameterized-base", "generic_alias_duplicate_refuted")):
+    res.obligation("refutation-reproduced:" + fp, fp in gen_fp or bool(bad_gp),
+                   "theorem %s: no generated/corpus program on which real pytype shows it" % thm)
+  res.extra["generic_programs"] = len(live_gen)
+  res.extra["generic_tables_dropped_by_typing_checks"] = n_gen_dropped
+  res.extra["generic_histogram"] = g_hist
+  res.extra["generic_fingerprints"] = {k: len(v) for k, v in gen_fp.items()}
+  res.extra["t_extension_s"] = round(time.time() - t3, 1)
   # which theorems speak about this tree
   res.extra["theorems_applicable"] = (
       ["mro_agree_with_dupcheck", "mro_error_iff_with_dupcheck", "lookup_agree_with_dupcheck"] if flag == "true" else
@@ -741,6 +949,27 @@ def replay(res, path):
     print("GetBasesInMRO    :", g.pytd_bases_in_mro(H[:-1], H[-1]), "for class C%d" % (len(H) - 1))
     issues = pure_oracle(H)
     print("oracle           :", issues or "agree")
+    return 1 if issues else 0
+  if d.get("kind") == "attr":
+    job = A.rebuild_attr_job({"id": 0, "mode": "attr", "H": d["H"], "spec": d["spec"], "probes": d["probes"]})
+    out = run_inproc(job)
+    print(job["text"])
+    print("cpython :", job["cpy"])
+    print("pytype  : errors=%s" % out["errors"])
+    print("\n".join(l for l in out["pyi"].split("\n") if re.match(r"^p\w+: ", l)))
+    known = {e["fingerprint"] for e in proposed_findings()} | set(res.known)
+    issues = [i for i in A.judge_attr(job, out) if i[0] != "not-explorable"]
+    print("oracle  :", issues or "agree")
+    return 1 if issues else 0
+  if d.get("kind") == "generic":
+    job = A.build_generic_job(0, d["G"], d["attrs"])
+    out = run_inproc(job)
+    print(job["text"])
+    print("cpython : fail=%s %s mros=%s" % (job["fail"], job["cpy_msg"], job["cpy_mros"]))
+    print("pytype  : errors=%s" % out["errors"])
+    print("observed compute_mro:", A.observed_gtable(job, out))
+    issues = [i for i in A.judge_generic(job, out) if i[0] != "not-explorable"]
+    print("oracle  :", issues or "agree")
     return 1 if issues else 0
   H = g.truncate_at_first_failure(d["H"])[0]
   job = make_job(0, d["mode"], H, d["attrs"][:len(H)], d.get("style", 0), d.get("history"))
